@@ -202,6 +202,16 @@ def limit_cpu(seconds):
     resource.setrlimit(resource.RLIMIT_CPU, (soft, soft + 2))
 
 
+def limit_as(nbytes=4 << 30):
+    """Allocator seam: a request beyond the address-space cap fails at once
+    (MemoryError) instead of being served lazily by the host.  Generated files
+    are kilobytes; only a count or size read from foreign bytes asks for more."""
+    try:
+        resource.setrlimit(resource.RLIMIT_AS, (int(nbytes), int(nbytes)))
+    except (ValueError, OSError):
+        pass
+
+
 def limit_fsize(nbytes):
     import signal
     signal.signal(signal.SIGXFSZ, signal.SIG_IGN)
